@@ -1,6 +1,7 @@
 """Shared monitor code for the luamin properties (C01, C02, C19): run the real minifier and align its output
 with the input under the reference lexer."""
 import os
+from . import ambient
 
 from . import reflex
 
@@ -21,7 +22,7 @@ def token_class(t):
 def minify_lib(src, config, keep_file=None):
     """Library path: Lua.to_lines(writer_cls=LuaMinifyTokenWriter, writer_args=...) -> output bytes."""
     from pico8.lua import lua
-    L = lua.Lua.from_lines([src], version=8)
+    L = lua.Lua.from_lines([src], version=ambient.VERSION[0])
     args = {}
     if config.startswith('keep_all'):
         args['keep_all_names'] = True
